@@ -8,9 +8,13 @@
  *
  * op file (objects 0..3 = stack objects `$(File, NULL)`, 4..7 = heap objects made by `new`; files 0..5 = regular files in
  * a private temp dir, 90 = a path in a directory that does not exist, 91 = /dev/full):
+ *   new1 <o> <file>                       new(File, $S(path)): one constructor argument (File_New reads args[1]: IndexOutOfBoundsError)
  *   new <o> [<file> <mode>] | del <o> | open <o> <file> <mode> | close <o> | stop <o>
  *   with <o> <n> | withx <o> <n>          the next n ops are the body of `with(f in obj)`; withx leaves it by an exception
- *   withv <o> <leave> <n>                 the same with the way out spelled: fall | cont | brk | throw
+ *   withv <o> <leave> <n>                 the same with the way out spelled: fall | cont | brk | throw | ret (`return` from
+ *                                         the function the block is written in)
+ *   copy <src> <dst>                      objs[dst] = copy(objs[src])   (slot dst free; File has no Copy instance: alloc + memcpy)
+ *   assign <dst> <src>                    assign(objs[dst], objs[src])  (File has no Assign instance: memcpy)
  *   withnew <o> <file> <mode> <leave> <n> `with (f in new(File, $S(path), $S(mode)))`: the source expression constructs the File (slot o free)
  *   withnew0 <o> <leave> <n>              `with (f in new(File))`
  *   withcall <o> <file> <mode> <leave> <n>  `with (f in fn(path, mode))`, fn constructs the File and counts its calls
@@ -34,7 +38,19 @@
  *   - at the end (everything deleted/closed) successful fopens == fcloses (sig=close-count);
  *   - with blocks: the source expression is evaluated exactly once (sig=with-reeval), its init clause makes exactly the fopen the
  *     expression asks for (sig=with-init-calls), leaving through the step clause makes exactly one stdio call, fclose of the handle
- *     the loop variable's File held when the body ended (sig=with-exit-calls), break / exception make none.
+ *     the loop variable's File held when the body ended (sig=with-exit-calls), break / return / exception make none;
+ *   - copy / assign make no stdio call (sig=copy-calls) and a copy of a closed File is closed.
+ * Known findings (the oracle reports them under their own signature; generated inputs stay out of these regions):
+ *   sig=kf-c20-with-early-exit       a with block left by break / return / an exception while its File is open: stop_in does not
+ *                                    run, the stream stays open ("leaving a with block closes the stream exactly once" fails);
+ *   sig=kf-c20-copy-aliases-handle   copy / assign of a File while source or target is open: the memcpy duplicates the FILE*
+ *                                    (two objects hold one handle; after one closes it the other passes the closed handle to
+ *                                    stdio, fclose is called twice for one fopen) or overwrites it (the target's handle is never
+ *                                    closed).  The interposed fclose of a handle that another object still holds does not really
+ *                                    close it (the pointer could be handed out again by libc): it is flushed, marked dead, and
+ *                                    every later call on it is refused and reported.
+ * A File object that holds a shared or a dead handle is outside the twin bookkeeping: only close / stop / del / tell / eof
+ * (and, on a dead handle, flush / seek / read / write) are executed on it, everything else is answered `unsup` by both sides.
  */
 #include "common.h"
 #include <errno.h>
@@ -64,7 +80,18 @@ static int n_fopen_ok = 0, n_fopen_fail = 0, n_fclose = 0;
 static char callbuf[1024]; static size_t calllen = 0; static int ncalls = 0;
 static size_t cur_line = 0;
 
+/* KF-C20-copy-aliases-handle bookkeeping */
+static FILE* dead_fp[MAXLIVE]; static int dead_id[MAXLIVE]; static int ndead = 0;   /* closed while another object still held them; really closed at exit */
+static int aliased_id[MAXLIVE]; static int naliased = 0;                           /* handles duplicated by copy / assign */
+static int leaked_id[MAXLIVE]; static int nleaked = 0;                             /* handles overwritten by assign while open */
+static int n_fclose_dead = 0;                                                      /* fclose calls on dead handles (second close of one fopen) */
+#define KF_ALIAS "kf-c20-copy-aliases-handle"
+#define KF_EARLY "kf-c20-with-early-exit"
+static int holders(FILE* fp);
+
 static int live_index(FILE* fp) { for (int i = 0; i < nlive; i++) if (live_fp[i] == fp) return i; return -1; }
+static int dead_index(FILE* fp) { for (int i = ndead - 1; i >= 0; i--) if (dead_fp[i] == fp) return i; return -1; }
+static int in_ids(const int* t, int n, int id) { for (int i = 0; i < n; i++) if (t[i] == id) return 1; return 0; }
 static void rec_call(const char* fn, const char* what) {
   ncalls++;
   if (calllen + 40 < sizeof callbuf) calllen += snprintf(callbuf + calllen, sizeof callbuf - calllen, "%s%s:%s", calllen ? "," : "", fn, what);
@@ -75,7 +102,16 @@ static int check_handle(const char* fn, FILE* fp) {
   char b[32];
   if (fp == NULL) { rec_call(fn, "NULL"); X("sig=stale-handle line=%zu what=%s called with NULL", cur_line, fn); return -1; }
   int i = live_index(fp);
-  if (i < 0) { rec_call(fn, "STALE"); X("sig=stale-handle line=%zu what=%s called with a handle that is not open", cur_line, fn); return -1; }
+  if (i < 0) {
+    int d = dead_index(fp);
+    if (d >= 0) {
+      snprintf(b, sizeof b, "%d", dead_id[d]); rec_call(fn, b);
+      if (!strcmp(fn, "fclose")) n_fclose_dead++;
+      X("sig=" KF_ALIAS " line=%zu what=%s called with handle %d, which was already closed through another File object that held the same FILE*", cur_line, fn, dead_id[d]);
+      return -1;
+    }
+    rec_call(fn, "STALE"); X("sig=stale-handle line=%zu what=%s called with a handle that is not open", cur_line, fn); return -1;
+  }
   snprintf(b, sizeof b, "%d", live_id[i]); rec_call(fn, b);
   return i;
 }
@@ -94,8 +130,13 @@ int __wrap_fclose(FILE* fp) {
   if (passthrough(fp)) return __real_fclose(fp);
   int i = check_handle("fclose", fp);
   if (i < 0) return EOF;
+  int id = live_id[i];
   live_fp[i] = live_fp[nlive-1]; live_id[i] = live_id[nlive-1]; nlive--;
   n_fclose++;
+  if (holders(fp) > 1 && ndead < MAXLIVE) {       /* another object holds the same FILE*: keep the pointer allocated */
+    dead_fp[ndead] = fp; dead_id[ndead] = id; ndead++;
+    return __real_fflush(fp) == 0 ? 0 : EOF;
+  }
   return __real_fclose(fp);
 }
 int __wrap_fseek(FILE* fp, long off, int wh) { if (passthrough(fp)) return __real_fseek(fp, off, wh); if (check_handle("fseek", fp) < 0) return -1; return __real_fseek(fp, off, wh); }
@@ -139,6 +180,14 @@ static int m_write(const char* m) { return m[0] == 'w' || m[0] == 'a' || strchr(
 static int m_full_ok(const char* m) { return (m[0] == 'w' || m[0] == 'a') && !strchr(m, '+'); }
 
 static FILE* raw(int o) { return objs[o] ? ((struct File*)objs[o])->file : NULL; }
+static int holders(FILE* fp) { int n = 0; if (objs && fp) for (int o = 0; o < NOBJ; o++) if (raw(o) == fp) n++; return n; }
+/* 0: the object is closed or the only holder of an open handle; 1: it shares an open handle with another object;
+   2: it holds a handle that is not open any more */
+static int shared_state(int o) {
+  FILE* fp = raw(o); if (!fp) return 0;
+  if (live_index(fp) < 0) return 2;
+  return holders(fp) > 1 ? 1 : 0;
+}
 
 static unsigned char gen_byte(uint64_t seed, uint64_t i) {
   uint64_t z = seed * 0x9E3779B97F4A7C15ULL + i * 0xBF58476D1CE4E5B9ULL + 0x94D049BB133111EBULL;
@@ -167,17 +216,35 @@ static void st_text(int o, char* out, size_t n) {
   snprintf(out, n, "h%d:%ld:%d", live_id[i], __real_ftell(fp), __real_feof(fp) ? 1 : 0);
 }
 
-/* handle accounting: live handles == handles held by the existing objects */
+/* handle accounting: live handles == handles held by the existing objects, each by exactly one */
+static int said_dead[NOBJ], said_alias[NOBJ];      /* known-finding lines are printed once per object and handle */
 static void check_accounting(void) {
-  int held = 0;
+  int held_live = 0;
   for (int o = 0; o < NOBJ; o++) {
     FILE* fp = raw(o);
     if (!fp) continue;
-    held++;
-    if (live_index(fp) < 0) X("sig=stale-handle-kept line=%zu what=object %d keeps a handle that is not open", cur_line, o);
-    for (int p = 0; p < o; p++) if (raw(p) == fp) X("sig=stale-handle-kept line=%zu what=objects %d and %d hold the same handle", cur_line, p, o);
+    int li = live_index(fp);
+    if (li < 0) {
+      int d = dead_index(fp);
+      if (d >= 0) { if (said_dead[o] != dead_id[d]) X("sig=" KF_ALIAS " line=%zu what=object %d keeps handle %d, which was closed through another File object", cur_line, o, dead_id[d]); said_dead[o] = dead_id[d]; }
+      else X("sig=stale-handle-kept line=%zu what=object %d keeps a handle that is not open", cur_line, o);
+      continue;
+    }
+    int first = 1;
+    for (int p = 0; p < o; p++) if (raw(p) == fp) {
+      first = 0;
+      if (in_ids(aliased_id, naliased, live_id[li])) { if (said_alias[o] != live_id[li]) X("sig=" KF_ALIAS " line=%zu what=objects %d and %d hold the same handle %d", cur_line, p, o, live_id[li]); said_alias[o] = live_id[li]; }
+      else X("sig=stale-handle-kept line=%zu what=objects %d and %d hold the same handle", cur_line, p, o);
+    }
+    if (first) held_live++;
   }
-  if (held != nlive) X("sig=handle-leak line=%zu what=%d handles are open but the File objects hold %d", cur_line, nlive, held);
+  int unheld = 0;
+  for (int i = 0; i < nlive; i++) {
+    if (holders(live_fp[i]) > 0) continue;
+    if (in_ids(leaked_id, nleaked, live_id[i])) continue;      /* reported when assign overwrote it, and at the end */
+    unheld++;
+  }
+  if (unheld) X("sig=handle-leak line=%zu what=%d handles are open but the File objects hold %d", cur_line, nlive, held_live);
 }
 
 static void emit(int o, const char* op, const char* extra) {
@@ -315,14 +382,15 @@ static void do_close_like(int o, const char* op, int which) {   /* 0 sclose, 1 s
  *   WK_NEW   with (f in new(File, $S(path), $S(mode)))        the idiom of the documentation: S constructs and opens
  *   WK_NEW0  with (f in new(File))                            S constructs a closed File
  *   WK_CALL  with (f in src_call(depth, path, mode))          a function that constructs the File and counts its calls
- * and for the four ways a body can end: falling off its end, `continue` (both reach the step clause of the for loop the
- * macro expands to), `break` and an exception (both leave the loop without it).
+ * and for the five ways a body can end: falling off its end, `continue` (both reach the step clause of the for loop the
+ * macro expands to), `break`, `return` (the block is written in a function of its own, with_run) and an exception (all
+ * three leave the loop without it: known finding KF-C20-with-early-exit when the File is open at that moment).
  * Oracle, independent of the model: S is evaluated exactly once (call counter; no fopen attempt outside the init
  * clause); the init clause makes exactly the fopen attempt S asks for; the step clause makes exactly one stdio call,
  * fclose of the handle the loop variable's File held when the body ended (or none and IOError when it held none), and
  * leaves that File closed; break / exception make no call; handle accounting and the twin file as for every other op. */
 enum { WK_VAR = 0, WK_NEW = 1, WK_NEW0 = 2, WK_CALL = 3 };
-enum { LV_FALL = 0, LV_CONT = 1, LV_BRK = 2, LV_THROW = 3 };
+enum { LV_FALL = 0, LV_CONT = 1, LV_BRK = 2, LV_THROW = 3, LV_RET = 4 };
 #define MAXDEPTH 16
 static int with_depth = 0;
 static int src_evals[MAXDEPTH + 2];
@@ -337,9 +405,10 @@ static int count_calls(const char* fn) {          /* how many recorded calls of 
   return n;
 }
 
-/* the body of every variant (a macro: `break` / `continue` must sit inside the for loop `with` expands to) */
+/* the body of every variant (a macro: `break` / `continue` / `return` must sit inside the for loop `with` expands to) */
+struct wctx { volatile int entered; volatile int hid; };
 #define WITH_BODY(BIND) { \
-    trk = 0; entered = 1; \
+    trk = 0; cx->entered = 1; \
     if (BIND) objs[o] = f; \
     with_entered(o, wk, k, mode, d); \
     with_depth++; in_with[o]++; \
@@ -348,10 +417,22 @@ static int count_calls(const char* fn) {          /* how many recorded calls of 
     if (leave == LV_THROW) throw(ValueError, "leaving the with block"); \
     begin_op(); cur_line = i + 1; \
     if (leave == LV_BRK) break; \
-    hid = (raw(o) && live_index(raw(o)) >= 0) ? live_id[live_index(raw(o))] : 0; \
+    if (leave == LV_RET) return; \
+    cx->hid = (raw(o) && live_index(raw(o)) >= 0) ? live_id[live_index(raw(o))] : 0; \
     trk = 1; \
     if (leave == LV_CONT) continue; \
   }
+
+static void with_entered(int o, int wk, int k, const char* mode, int d);
+/* the real macro: init clause, body, step clause — in a function of its own so that a body can `return` out of it */
+static void with_run(char** lines, size_t i, size_t end, int o, int wk, int k, const char* p, const char* mode, int d, int leave, struct wctx* cx) {
+  switch (wk) {
+    case WK_VAR:  with (f in objs[o]) WITH_BODY(0); break;
+    case WK_NEW:  with (f in new(File, $S(p), $S(mode))) WITH_BODY(1); break;
+    case WK_NEW0: with (f in new(File)) WITH_BODY(1); break;
+    default:      with (f in src_call(d, p, mode)) WITH_BODY(1); break;
+  }
+}
 
 static void with_entered(int o, int wk, int k, const char* mode, int d) {
   r_exc = NULL;
@@ -375,7 +456,7 @@ static void exec_with(char** lines, size_t* ip, size_t hi, size_t i, int o, int 
     if (*e || !file_ok((int)kl) || !mode_ok(tok[3])) { O("bad-op"); return; }
     mode = tok[3]; lvs = tok[4]; ns = tok[5];
   }
-  int leave = !strcmp(lvs, "fall") ? LV_FALL : !strcmp(lvs, "cont") ? LV_CONT : !strcmp(lvs, "brk") ? LV_BRK : !strcmp(lvs, "throw") ? LV_THROW : -1;
+  int leave = !strcmp(lvs, "fall") ? LV_FALL : !strcmp(lvs, "cont") ? LV_CONT : !strcmp(lvs, "brk") ? LV_BRK : !strcmp(lvs, "throw") ? LV_THROW : !strcmp(lvs, "ret") ? LV_RET : -1;
   long n = strtol(ns, &e, 10);
   if (leave < 0 || *e || n < 0 || ns[0] == '-' || ns[0] == '+') { O("bad-op"); return; }
   if (with_depth > MAXDEPTH) { O("bad-op"); return; }
@@ -387,19 +468,14 @@ static void exec_with(char** lines, size_t* ip, size_t hi, size_t i, int o, int 
   size_t end = i + 1 + (size_t)n; if (end > hi || end < i) end = hi;
   char p[400]; p[0] = 0; if (wk == WK_NEW || wk == WK_CALL) path_of(k, 0, p, sizeof p);
   int d = with_depth;
-  volatile int entered = 0; volatile int hid = 0;
+  struct wctx cxs = { 0, 0 }; struct wctx* cx = &cxs;
   var wexc = NULL;
   src_evals[d] = 0;
   cur_line = i + 1;
   begin_op(); trk = 1;
-  /* the real macro: init clause, body, step clause */
-  switch (wk) {
-    case WK_VAR:  V_TRY(wexc, with (f in objs[o]) WITH_BODY(0)); break;
-    case WK_NEW:  V_TRY(wexc, with (f in new(File, $S(p), $S(mode))) WITH_BODY(1)); break;
-    case WK_NEW0: V_TRY(wexc, with (f in new(File)) WITH_BODY(1)); break;
-    default:      V_TRY(wexc, with (f in src_call(d, p, mode)) WITH_BODY(1)); break;
-  }
+  V_TRY(wexc, with_run(lines, i, end, o, wk, k, p, mode, d, leave, cx));
   trk = 0;
+  int entered = cx->entered, hid = cx->hid;
   cur_line = i + 1;
   r_exc = wexc;
   *ip = end;
@@ -413,14 +489,14 @@ static void exec_with(char** lines, size_t* ip, size_t hi, size_t i, int o, int 
   }
   if (wk == WK_CALL && src_evals[d] != 1)
     X("sig=with-reeval line=%zu what=the source expression of with was evaluated %d times", cur_line, src_evals[d]);
-  if (leave == LV_THROW) {
-    calllen = 0; callbuf[0] = 0; ncalls = 0;
-    emit(o, "with-abort", "");
-    return;
-  }
-  if (leave == LV_BRK) {
-    if (r_exc || ncalls) X("sig=with-exit-calls line=%zu what=break out of a with block raised %s and made the stdio calls (%s)", cur_line, v_exc_name(r_exc), ncalls ? callbuf : "-");
-    emit(o, "with-break", "");
+  if (leave == LV_THROW || leave == LV_BRK || leave == LV_RET) {
+    const char* how = leave == LV_THROW ? "an exception" : leave == LV_BRK ? "break" : "return";
+    if (leave == LV_THROW) { calllen = 0; callbuf[0] = 0; ncalls = 0; }
+    else if (r_exc || ncalls) X("sig=with-exit-calls line=%zu what=%s out of a with block raised %s and made the stdio calls (%s)", cur_line, how, v_exc_name(r_exc), ncalls ? callbuf : "-");
+    /* the property: leaving a with block closes the stream.  The loop was left without its step clause: known finding */
+    if (raw(o) != NULL)
+      X("sig=" KF_EARLY " line=%zu what=the with block was left by %s: stop_in did not run and the File still holds an open stream", cur_line, how);
+    emit(o, leave == LV_THROW ? "with-abort" : leave == LV_BRK ? "with-break" : "with-return", "");
     return;
   }
   /* the step clause ran.  Was the File open when it ran?  the twin says so */
@@ -434,6 +510,81 @@ static void exec_with(char** lines, size_t* ip, size_t hi, size_t i, int o, int 
   }
   must_be_closed(o, "with-exit");
   emit(o, "with-exit", "");
+}
+
+/* an object that shares its handle with another object (sh = 1) or holds a handle that is not open any more (sh = 2):
+ * the region of KF-C20-copy-aliases-handle.  No twin: the wrappers refuse and report every call on a dead handle. */
+static void exec_shared(int o, int sh, const char* op, char** tok, int nt) {
+  char ex[128]; ex[0] = 0; char* e;
+  if (!strcmp(op, "close") || !strcmp(op, "stop")) {
+    if (nt != 2) { O("bad-op"); return; }
+    begin_op(); trk = 1;
+    if (op[0] == 'c') V_TRY(r_exc, sclose(objs[o])); else V_TRY(r_exc, stop(objs[o]));
+    trk = 0;
+    twin_close(o);
+    must_be_closed(o, op);
+    emit(o, op, "");
+    return;
+  }
+  if (!strcmp(op, "del")) {
+    if (o < NSTACK || nt != 2 || in_with[o] > 0) { O("bad-op"); return; }
+    begin_op(); trk = 1; V_TRY(r_exc, del(objs[o])); trk = 0;
+    objs[o] = NULL;
+    twin_close(o);
+    emit(o, "del", "");
+    return;
+  }
+  if (!strcmp(op, "tell") || !strcmp(op, "eof")) {
+    if (nt != 2) { O("bad-op"); return; }
+    begin_op(); trk = 1;
+    if (op[0] == 't') V_TRY(r_exc, r_ret = (long long)stell(objs[o])); else V_TRY(r_exc, r_ret = seof(objs[o]) ? 1 : 0);
+    trk = 0;
+    snprintf(ex, sizeof ex, "ret=%lld", r_exc ? -1LL : r_ret);
+    emit(o, op, ex);
+    return;
+  }
+  if (sh == 2 && !strcmp(op, "flush")) {
+    if (nt != 2) { O("bad-op"); return; }
+    begin_op(); trk = 1; V_TRY(r_exc, sflush(objs[o])); trk = 0;
+    emit(o, op, "");
+    return;
+  }
+  if (sh == 2 && !strcmp(op, "seek")) {
+    if (nt != 4) { O("bad-op"); return; }
+    long long off = strtoll(tok[2], &e, 10); if (*e) { O("bad-op"); return; }
+    int wh = !strcmp(tok[3], "set") ? SEEK_SET : !strcmp(tok[3], "cur") ? SEEK_CUR : !strcmp(tok[3], "end") ? SEEK_END : !strcmp(tok[3], "bad") ? 7 : -1;
+    if (wh < 0) { O("bad-op"); return; }
+    begin_op(); trk = 1; V_TRY(r_exc, sseek(objs[o], off, wh)); trk = 0;
+    emit(o, op, "");
+    return;
+  }
+  if (sh == 2 && !strcmp(op, "read")) {
+    if (nt != 3) { O("bad-op"); return; }
+    long long size = strtoll(tok[2], &e, 10);
+    if (*e || size < 0 || size > MAXIO) { O("bad-op"); return; }
+    begin_op(); trk = 1; V_TRY(r_exc, r_ret = (long long)sread(objs[o], buf1, (size_t)size)); trk = 0;
+    snprintf(ex, sizeof ex, "ret=%lld got=0 h=%llu", r_exc ? -1LL : r_ret, (unsigned long long)fnv(buf1, 0));
+    emit(o, op, ex);
+    return;
+  }
+  if (sh == 2 && (!strcmp(op, "write") || !strcmp(op, "writehex"))) {
+    size_t len = 0;
+    if (op[5] == 0) {
+      if (nt != 4) { O("bad-op"); return; }
+      long long l = strtoll(tok[2], &e, 10); if (*e || l < 0 || l > MAXIO) { O("bad-op"); return; }
+      unsigned long long seed = strtoull(tok[3], &e, 10); if (*e) { O("bad-op"); return; }
+      for (long long j = 0; j < l; j++) buf1[j] = gen_byte(seed, (uint64_t)j);
+      len = (size_t)l;
+    } else {
+      if (nt != 3) { O("bad-op"); return; }
+      if (!parse_hex(tok[2], buf1, MAXIO, &len)) { O("bad-op"); return; }
+    }
+    begin_op(); trk = 1; V_TRY(r_exc, r_ret = (long long)swrite(objs[o], buf1, len)); trk = 0;
+    snprintf(ex, sizeof ex, "ret=%lld", r_exc ? -1LL : r_ret);
+    emit(o, op, ex);
+    return;
+  }
+  O("%s unsup", op);
 }
 
 static void exec_op(char** lines, size_t* ip, size_t hi) {
@@ -495,12 +646,73 @@ static void exec_op(char** lines, size_t* ip, size_t hi) {
     emit(o, "new", "");
     return;
   }
+  if (!strcmp(op, "new1")) {
+    if (o < NSTACK || objs[o] || nt != 3) { O("bad-op"); return; }
+    long k = strtol(tok[2], &e, 10);
+    if (*e || !file_ok((int)k)) { O("bad-op"); return; }
+    char p[400]; path_of((int)k, 0, p, sizeof p);
+    begin_op(); trk = 1; V_TRY(r_exc, objs[o] = new(File, $S(p))); trk = 0;
+    if (r_exc) objs[o] = NULL;
+    if (ncalls) X("sig=closed-not-refused line=%zu what=new(File, path) with one argument made the stdio calls (%s)", cur_line, callbuf);
+    if (objs[o]) {       /* it did not throw: whatever it opened has no twin — report and drop the object */
+      X("sig=exc-mismatch line=%zu what=new(File, path) with one argument raised nothing (File_New reads a second argument)", cur_line);
+      var x2; trk = 1; V_TRY(x2, del(objs[o])); trk = 0; objs[o] = NULL;
+    }
+    emit(o, "new1", "");
+    return;
+  }
   if (!strcmp(op, "withnew") || !strcmp(op, "withnew0") || !strcmp(op, "withcall")) {
     if (o < NSTACK || objs[o]) { O("bad-op"); return; }
     exec_with(lines, ip, hi, i, o, !strcmp(op, "withnew") ? WK_NEW : !strcmp(op, "withnew0") ? WK_NEW0 : WK_CALL, op, tok, nt);
     return;
   }
   if (!objs[o]) { O("bad-op"); return; }
+
+  if (!strcmp(op, "copy")) {           /* copy <src> <dst>: File has no Copy instance, copy = assign(alloc(File), src) = memcpy */
+    if (nt != 3) { O("bad-op"); return; }
+    long dl = strtol(tok[2], &e, 10);
+    if (*e || dl < NSTACK || dl >= NOBJ || objs[dl]) { O("bad-op"); return; }
+    int dst = (int)dl;
+    int src_open = raw(o) != NULL;
+    begin_op(); trk = 1; V_TRY(r_exc, objs[dst] = copy(objs[o])); trk = 0;
+    if (r_exc) objs[dst] = NULL;
+    bk[dst].file = -1; bk[dst].twin = NULL; bk[dst].last = L_NONE; bk[dst].pending = 0;
+    if (ncalls) X("sig=copy-calls line=%zu what=copy of a File made the stdio calls (%s)", cur_line, callbuf);
+    if (r_exc) X("sig=exc-mismatch line=%zu what=copy of a File raised %s", cur_line, v_exc_name(r_exc));
+    if (src_open && objs[dst] && raw(dst) == raw(o)) {
+      int li = live_index(raw(o)); int id = li >= 0 ? live_id[li] : 0;
+      if (li >= 0 && naliased < MAXLIVE) aliased_id[naliased++] = id;
+      X("sig=" KF_ALIAS " line=%zu what=copy of an open File: objects %d and %d now hold the same FILE* (handle %d), one fopen will face two fcloses", cur_line, o, dst, id);
+    } else if (objs[dst] && raw(dst) != NULL) X("sig=stale-handle-kept line=%zu what=the copy of a closed File holds a handle", cur_line);
+    emit(dst, "copy", "");
+    return;
+  }
+  if (!strcmp(op, "assign")) {         /* assign <dst> <src>: File has no Assign instance, assign = memcpy(dst, src, size) */
+    if (nt != 3) { O("bad-op"); return; }
+    long sl = strtol(tok[2], &e, 10);
+    if (*e || sl < 0 || sl >= NOBJ || !objs[sl] || sl == o) { O("bad-op"); return; }
+    int src = (int)sl;
+    FILE* old = raw(o); int old_li = old ? live_index(old) : -1; int old_id = old_li >= 0 ? live_id[old_li] : 0;
+    int src_open = raw(src) != NULL;
+    begin_op(); trk = 1; V_TRY(r_exc, assign(objs[o], objs[src])); trk = 0;
+    if (ncalls) X("sig=copy-calls line=%zu what=assign of a File made the stdio calls (%s)", cur_line, callbuf);
+    if (r_exc) X("sig=exc-mismatch line=%zu what=assign of a File raised %s", cur_line, v_exc_name(r_exc));
+    if (old) {                         /* the target was open: its handle is overwritten, not closed */
+      twin_close(o);
+      if (old_li >= 0 && holders(old) == 0) {
+        if (nleaked < MAXLIVE) leaked_id[nleaked++] = old_id;
+        X("sig=" KF_ALIAS " line=%zu what=assign onto an open File: handle %d is overwritten without fclose, no object holds it any more", cur_line, old_id);
+      }
+    }
+    if (src_open && raw(o) == raw(src)) {
+      int li = live_index(raw(src)); int id = li >= 0 ? live_id[li] : 0;
+      if (li >= 0 && naliased < MAXLIVE) aliased_id[naliased++] = id;
+      X("sig=" KF_ALIAS " line=%zu what=assign from an open File: objects %d and %d now hold the same FILE* (handle %d)", cur_line, src, o, id);
+    } else if (!src_open && raw(o) != NULL) X("sig=stale-handle-kept line=%zu what=a File assigned from a closed File holds a handle", cur_line);
+    emit(o, "assign", "");
+    return;
+  }
+  { int sh = shared_state(o); if (sh) { exec_shared(o, sh, op, tok, nt); return; } }
 
   if (!strcmp(op, "del")) {
     if (o < NSTACK || nt != 2 || in_with[o] > 0) { O("bad-op"); return; }   /* deleting the subject of a running with-block: use after free */
@@ -713,7 +925,10 @@ int main(int argc, char** argv) {
     twin_close(o);
   }
   check_accounting();
-  if (n_fopen_ok != n_fclose) X("sig=close-count line=%zu what=%d successful fopen but %d fclose after everything was closed or deleted", cur_line, n_fopen_ok, n_fclose);
-  O("end fopen=%d fail=%d fclose=%d live=%d", n_fopen_ok, n_fopen_fail, n_fclose, nlive);
+  /* handles overwritten by assign stay open for ever; fcloses of dead handles are the second close of one fopen (both KF) */
+  if (n_fopen_ok - nleaked != n_fclose) X("sig=close-count line=%zu what=%d successful fopen but %d fclose after everything was closed or deleted", cur_line, n_fopen_ok, n_fclose);
+  if (nleaked || n_fclose_dead) X("sig=" KF_ALIAS " line=%zu what=%d successful fopen but %d calls of fclose (%d on a handle that was already closed, %d handles never closed) after everything was closed or deleted", cur_line, n_fopen_ok, n_fclose + n_fclose_dead, n_fclose_dead, nleaked);
+  O("end fopen=%d fail=%d fclose=%d live=%d", n_fopen_ok, n_fopen_fail, n_fclose + n_fclose_dead, nlive);
+  for (int i = 0; i < ndead; i++) __real_fclose(dead_fp[i]);
   return 0;
 }
